@@ -1,8 +1,9 @@
 (* C03 - Each received CALL is handled at most once and answered exactly once.
    Statements only; every proof is [exact <lemma>] or a computed witness.
-   [dispatch effw f] is the list of visible actions one iteration of the read loop
-   produces for the frame class [f] (Model/Dispatch.v); [dispatch_now] is the tree
-   with fix bd93e2a, [dispatch_prefix] the tree before it.  A frame class fixes the
+   [dispatch effw pf f] is the list of visible actions one iteration of the read loop
+   produces for the frame class [f] (Model/Dispatch.v); [effw] / [pf] select the tree:
+   [dispatch_now] = current tree (context fix bd93e2a and pool fix),
+   [dispatch_prefix] = pinned tree (neither).  A frame class fixes the
    type byte (all 256), the route, the read/decode outcome, every plugin verdict, the
    handler outcome, the reply-write results, context expiry, goroutine availability
    and the session state - all theorems quantify over ALL of them. *)
@@ -13,70 +14,79 @@ Import ListNotations.
 Local Open Scope Z_scope.
 
 (* ---- at most one handler invocation: any frame, any environment, both trees ---- *)
-Theorem C03_call_at_most_one_invocation : forall effw f,
-  is_call f -> (count is_invoke (dispatch effw f) <= 1)%nat.
+Theorem C03_call_at_most_one_invocation : forall effw pf f,
+  is_call f -> (count is_invoke (dispatch effw pf f) <= 1)%nat.
 Proof. exact call_at_most_one_invocation_lemma. Qed.
 Print Assumptions C03_call_at_most_one_invocation.
 
-Theorem C03_any_frame_at_most_one_invocation : forall effw f,
-  (count is_invoke (dispatch effw f) <= 1)%nat.
+Theorem C03_any_frame_at_most_one_invocation : forall effw pf f,
+  (count is_invoke (dispatch effw pf f) <= 1)%nat.
 Proof. exact any_frame_at_most_one_invocation_lemma. Qed.
 Print Assumptions C03_any_frame_at_most_one_invocation.
 
 (* ---- never answered twice, and only with the CALL's own sequence number ---- *)
-Theorem C03_call_never_answered_twice : forall effw f,
+Theorem C03_call_never_answered_twice : forall effw pf f,
   is_call f ->
-  (count is_reply (dispatch effw f) <= 1)%nat /\
-  (forall s st, In (Reply s st) (dispatch effw f) -> s = f_seq f).
+  (count is_reply (dispatch effw pf f) <= 1)%nat /\
+  (forall s st, In (Reply s st) (dispatch effw pf f) -> s = f_seq f).
 Proof. exact call_never_answered_twice_lemma. Qed.
 Print Assumptions C03_call_never_answered_twice.
 
 (* ---- a CALL ends in exactly one of three ways ---- *)
-Theorem C03_call_trichotomy : forall effw f,
+Theorem C03_call_trichotomy : forall effw pf f,
   is_call f ->
-  answered_once (f_seq f) (dispatch effw f) \/ disconnected_instead (dispatch effw f) \/
-  dropped (dispatch effw f).
+  answered_once (f_seq f) (dispatch effw pf f) \/ disconnected_instead (dispatch effw pf f) \/
+  dropped (dispatch effw pf f).
 Proof. exact call_trichotomy_lemma. Qed.
 Print Assumptions C03_call_trichotomy.
 
 (* ---- the property: exactly one reply with the same seq, or the session is
-        disconnected instead.  Current tree; hypotheses visible:
-        a goroutine was available, and a body-less error frame is never refused
-        for a reason other than a closed connection. ---- *)
+        disconnected instead.  Current tree; the one hypothesis left: a body-less
+        error frame is never refused for a reason other than a closed connection. ---- *)
 Theorem C03_call_exactly_one_reply_or_disconnect : forall f,
-  is_call f -> f_spawn_failed f = false -> error_frames_writable f ->
+  is_call f -> error_frames_writable f ->
   answered_once (f_seq f) (dispatch_now f) \/ disconnected_instead (dispatch_now f).
 Proof. exact call_exactly_one_reply_or_disconnect_lemma. Qed.
 Print Assumptions C03_call_exactly_one_reply_or_disconnect.
 
 Definition quiet_verdicts : stage -> verdict := fun _ => VNil.
 
-(* The unguarded property is false: the goroutine pool is exhausted (finding
-   call-dropped-gopool-exhausted).  Everything else about the frame is benign. *)
+(* The unguarded property is false: neither the reply nor the fallback error frame
+   can be written (finding reply-dropped-error-frame-unwritable). *)
 Theorem C03_call_exactly_one_reply_or_disconnect_refuted :
-  exists f, is_call f /\ error_frames_writable f /\ f_ctx_expired f = false /\
-            dispatch_now f = [Drop] /\
-            ~ (answered_once (f_seq f) (dispatch_now f) \/ disconnected_instead (dispatch_now f)).
-Proof.
-  exists (mkFrame 7 x01 false RKnown (RBody None) quiet_verdicts (HReturn None)
-                  WOk WOk WOk false true true).
-  repeat split; try discriminate; try reflexivity.
-  vm_compute. intros [(H & _)|(_ & H & _)]; discriminate.
-Qed.
-Print Assumptions C03_call_exactly_one_reply_or_disconnect_refuted.
-
-(* ... and when neither the reply nor the fallback error frame can be written
-   (finding reply-dropped-error-frame-unwritable). *)
-Theorem C03_error_frame_unwritable_refuted :
   exists f, is_call f /\ f_spawn_failed f = false /\ f_ctx_expired f = false /\
-            dispatch_now f = [Invoke HKnown; Drop].
+            dispatch_now f = [Invoke HKnown; Drop] /\
+            ~ (answered_once (f_seq f) (dispatch_now f) \/ disconnected_instead (dispatch_now f)).
 Proof.
   exists (mkFrame 7 x01 false RKnown (RBody None) quiet_verdicts
                   (HReturn (Some (mkStatus 1000 (str "biz") (CText (str "why")))))
                   WOk WRefused WRefused false false true).
-  repeat split; vm_compute; reflexivity.
+  repeat split; try reflexivity.
+  vm_compute. intros [(H & _)|(_ & H & _)]; discriminate.
 Qed.
-Print Assumptions C03_error_frame_unwritable_refuted.
+Print Assumptions C03_call_exactly_one_reply_or_disconnect_refuted.
+
+(* Before the pool fix: the goroutine pool is exhausted, the context is put back and
+   the CALL is dropped (was finding call-dropped-gopool-exhausted); now it is refused
+   with a 500 on the read goroutine, its handler not run. *)
+Theorem C03_pre_pool_fix_gopool_exhausted_refuted :
+  exists f, is_call f /\ error_frames_writable f /\ f_ctx_expired f = false /\
+            f_spawn_failed f = true /\
+            dispatch eff_write false f = [Drop] /\
+            dispatch_now f = [Reply (f_seq f) (Some st_no_goroutine)].
+Proof.
+  exists (mkFrame 7 x01 false RKnown (RBody None) quiet_verdicts (HReturn None)
+                  WOk WOk WOk false true true).
+  repeat split; try discriminate; reflexivity.
+Qed.
+Print Assumptions C03_pre_pool_fix_gopool_exhausted_refuted.
+
+Theorem C03_pre_pool_fix_guarded : forall f,
+  is_call f -> f_spawn_failed f = false -> error_frames_writable f ->
+  answered_once (f_seq f) (dispatch eff_write false f) \/
+  disconnected_instead (dispatch eff_write false f).
+Proof. exact call_exactly_one_reply_or_disconnect_pre_pool_lemma. Qed.
+Print Assumptions C03_pre_pool_fix_guarded.
 
 (* Before fix bd93e2a: the handling context expires while the handler runs, both
    writes are refused, the call is dropped on a healthy session (was finding
@@ -94,29 +104,29 @@ Qed.
 Print Assumptions C03_prefix_context_expired_refuted.
 
 Theorem C03_prefix_agrees_while_context_alive : forall f,
-  f_ctx_expired f = false -> dispatch_prefix f = dispatch_now f.
+  f_ctx_expired f = false -> f_spawn_failed f = false -> dispatch_prefix f = dispatch_now f.
 Proof. exact prefix_agrees_lemma. Qed.
 Print Assumptions C03_prefix_agrees_while_context_alive.
 
 (* ---- PUSH: at most one invocation, never a reply (both trees, any environment) ---- *)
-Theorem C03_push_never_replied : forall effw f,
+Theorem C03_push_never_replied : forall effw pf f,
   classify_type (f_type f) = TPush ->
-  count is_reply (dispatch effw f) = 0%nat /\ count is_drop (dispatch effw f) = 0%nat /\
-  (count is_invoke (dispatch effw f) <= 1)%nat.
+  count is_reply (dispatch effw pf f) = 0%nat /\ count is_drop (dispatch effw pf f) = 0%nat /\
+  (count is_invoke (dispatch effw pf f) <= 1)%nat.
 Proof. exact push_never_replied_lemma. Qed.
 Print Assumptions C03_push_never_replied.
 
 (* nothing but a CALL is ever answered *)
-Theorem C03_noncall_never_replied : forall effw f,
+Theorem C03_noncall_never_replied : forall effw pf f,
   classify_type (f_type f) <> TCall ->
-  count is_reply (dispatch effw f) = 0%nat /\ count is_drop (dispatch effw f) = 0%nat.
+  count is_reply (dispatch effw pf f) = 0%nat /\ count is_drop (dispatch effw pf f) = 0%nat.
 Proof. exact noncall_never_replied_lemma. Qed.
 Print Assumptions C03_noncall_never_replied.
 
 (* ---- unsupported type byte: the only action is the disconnect ---- *)
-Theorem C03_unsupported_type_disconnects : forall effw f,
-  classify_type (f_type f) = TOther -> f_spawn_failed f = false ->
-  dispatch effw f = [Disconnect].
+Theorem C03_unsupported_type_disconnects : forall effw pf f,
+  classify_type (f_type f) = TOther -> pf = true \/ f_spawn_failed f = false ->
+  dispatch effw pf f = [Disconnect].
 Proof. exact unsupported_type_disconnects_lemma. Qed.
 Print Assumptions C03_unsupported_type_disconnects.
 
@@ -125,15 +135,20 @@ Theorem C03_type_classification_total : forall b,
 Proof. exact classify_type_total. Qed.
 Print Assumptions C03_type_classification_total.
 
-(* with the pool exhausted even that is lost: the frame is ignored *)
-Theorem C03_unsupported_type_disconnects_refuted :
-  exists f, classify_type (f_type f) = TOther /\ dispatch_now f = [].
+Theorem C03_unsupported_type_disconnects_now : forall f,
+  classify_type (f_type f) = TOther -> dispatch_now f = [Disconnect].
+Proof. intros f H. apply unsupported_type_disconnects_lemma; [exact H | left; reflexivity]. Qed.
+Print Assumptions C03_unsupported_type_disconnects_now.
+
+(* before the pool fix even that was lost with the pool exhausted: the frame was ignored *)
+Theorem C03_pre_pool_fix_unsupported_type_refuted :
+  exists f, classify_type (f_type f) = TOther /\ dispatch eff_write false f = [].
 Proof.
   exists (mkFrame 7 x09 false RKnown (RBody None) quiet_verdicts (HReturn None)
                   WOk WOk WOk false true true).
   split; reflexivity.
 Qed.
-Print Assumptions C03_unsupported_type_disconnects_refuted.
+Print Assumptions C03_pre_pool_fix_unsupported_type_refuted.
 
 (* ---- reply_status_rule ---- *)
 (* Every status a CALL is answered with is: OK, 404, 400 (invalid method / bad body),
@@ -164,11 +179,11 @@ Theorem C03_rule_undecodable_body_400 : forall f,
 Proof. exact rule_bad_body_lemma. Qed.
 Print Assumptions C03_rule_undecodable_body_400.
 
-Theorem C03_rule_undecodable_body_no_codec_disconnects : forall effw f,
+Theorem C03_rule_undecodable_body_no_codec_disconnects : forall effw pf f,
   f_verdict f SPreReadHeader = VNil -> f_read f = RBody (Some false) ->
   passes (f_verdict f SPostReadCallHeader) ->
   f_sm_empty f = false -> f_route f = RKnown -> passes (f_verdict f SPreReadCallBody) ->
-  is_call f -> dispatch effw f = [Disconnect].
+  is_call f -> dispatch effw pf f = [Disconnect].
 Proof. exact rule_bad_body_no_codec_lemma. Qed.
 Print Assumptions C03_rule_undecodable_body_no_codec_disconnects.
 
@@ -179,10 +194,10 @@ Theorem C03_rule_veto_post_read_header : forall f e s,
 Proof. exact rule_veto_header_lemma. Qed.
 Print Assumptions C03_rule_veto_post_read_header.
 
-Theorem C03_rule_veto_405_disconnects : forall effw f e s,
+Theorem C03_rule_veto_405_disconnects : forall effw pf f e s,
   base_env f -> f_read f = RBody e ->
   f_verdict f SPostReadCallHeader = VStat s -> st_code s = 405 ->
-  dispatch effw f = [Disconnect].
+  dispatch effw pf f = [Disconnect].
 Proof. exact rule_veto_405_lemma. Qed.
 Print Assumptions C03_rule_veto_405_disconnects.
 
@@ -201,29 +216,29 @@ Theorem C03_rule_veto_post_read_body : forall f k s,
 Proof. exact rule_veto_post_body_lemma. Qed.
 Print Assumptions C03_rule_veto_post_read_body.
 
-Theorem C03_rule_handler_status : forall f k s hs,
-  normal_env f -> reaches_post_body f k -> hook (f_verdict f SPostReadCallBody) = HookOk s ->
+Theorem C03_rule_handler_status : forall f k hs,
+  normal_env f -> reaches_post_body f k -> passes (f_verdict f SPostReadCallBody) ->
   f_handler f = HReturn (Some hs) -> st_code hs <> 0 ->
   dispatch_now f = [Invoke k; Reply (f_seq f) (Some hs)].
 Proof. exact rule_handler_status_lemma. Qed.
 Print Assumptions C03_rule_handler_status.
 
-Theorem C03_rule_handler_ok : forall f k s hs,
-  normal_env f -> reaches_post_body f k -> hook (f_verdict f SPostReadCallBody) = HookOk s ->
+Theorem C03_rule_handler_ok : forall f k hs,
+  normal_env f -> reaches_post_body f k -> passes (f_verdict f SPostReadCallBody) ->
   f_handler f = HReturn hs -> st_ok hs = true ->
   dispatch_now f = [Invoke k; Reply (f_seq f) None].
 Proof. exact rule_handler_ok_lemma. Qed.
 Print Assumptions C03_rule_handler_ok.
 
-Theorem C03_rule_handler_panic_500 : forall f k s c,
-  normal_env f -> reaches_post_body f k -> hook (f_verdict f SPostReadCallBody) = HookOk s ->
+Theorem C03_rule_handler_panic_500 : forall f k c,
+  normal_env f -> reaches_post_body f k -> passes (f_verdict f SPostReadCallBody) ->
   f_handler f = HPanic c ->
   dispatch_now f = [Invoke k; Reply (f_seq f) (Some (st_internal c))].
 Proof. exact rule_handler_panic_lemma. Qed.
 Print Assumptions C03_rule_handler_panic_500.
 
-Theorem C03_rule_unwritable_result_500 : forall f k s hs,
-  base_env f -> reaches_post_body f k -> hook (f_verdict f SPostReadCallBody) = HookOk s ->
+Theorem C03_rule_unwritable_result_500 : forall f k hs,
+  base_env f -> reaches_post_body f k -> passes (f_verdict f SPostReadCallBody) ->
   f_handler f = HReturn hs -> st_ok hs = true ->
   f_w_ok f = WRefused -> f_w_err2 f = WOk ->
   dispatch_now f = [Invoke k; Reply (f_seq f) (Some (st_internal CLib))].
@@ -236,9 +251,18 @@ Theorem C03_rule_plugin_panic_on_handler_goroutine_500 : forall f k c,
 Proof. exact rule_post_body_panic_lemma. Qed.
 Print Assumptions C03_rule_plugin_panic_on_handler_goroutine_500.
 
-Theorem C03_rule_plugin_panic_on_read_goroutine_disconnects : forall effw f e c,
+(* no goroutine available: refused with a 500, the handler is not run *)
+Theorem C03_rule_no_goroutine_500 : forall f k,
+  is_call f -> f_verdict f SPreReadHeader = VNil -> f_goon f = true ->
+  f_spawn_failed f = true -> (forall c, f_verdict f SPreWriteReply <> VPanic c) ->
+  f_w_err1 f = WOk -> reaches_post_body f k ->
+  dispatch_now f = [Reply (f_seq f) (Some st_no_goroutine)].
+Proof. exact rule_no_goroutine_lemma. Qed.
+Print Assumptions C03_rule_no_goroutine_500.
+
+Theorem C03_rule_plugin_panic_on_read_goroutine_disconnects : forall effw pf f e c,
   f_verdict f SPreReadHeader = VNil -> is_call f -> f_read f = RBody e ->
-  f_verdict f SPostReadCallHeader = VPanic c -> dispatch effw f = [Disconnect].
+  f_verdict f SPostReadCallHeader = VPanic c -> dispatch effw pf f = [Disconnect].
 Proof. exact rule_header_panic_lemma. Qed.
 Print Assumptions C03_rule_plugin_panic_on_read_goroutine_disconnects.
 
@@ -249,7 +273,7 @@ Definition ok_frame : frame :=
 Example C03_normal_env_inhabited : normal_env ok_frame /\ reaches_post_body ok_frame HKnown.
 Proof.
   split; [split; [split|..]|split]; try reflexivity; try (intros c; discriminate);
-    try (left; reflexivity); exists None; reflexivity.
+    try (left; reflexivity).
 Qed.
 
 Example C03_ok_frame_answered :
